@@ -4,6 +4,7 @@
 -/
 import Proofs.C06Pairs
 import Proofs.C09Ops
+import Proofs.StoreFlag
 
 set_option linter.unusedSimpArgs false
 
@@ -106,6 +107,21 @@ theorem uniqS_checked_write {now : Int} {c c' : Coll} {k new : Val} (hU : UniqS 
   · simp only [not_or] at hnew
     exact hU ix hix hu hd a b (pair_before_setDoc (hab.trans hs) hnew.1 hnew.2) ga gb
 
+/-- the same for `__setitem__` (which differs from the bare assignment by the created flag) -/
+theorem uniqS_checked_store {now : Int} {c c' : Coll} {k new : Val} (hU : UniqS c)
+    (h : ensureUniques now (c.storeDoc k new) new = .ok c') : UniqS c' := by
+  obtain ⟨hs, hm, hck⟩ := ensureUniques_ok h
+  have hs' : c'.docs.Sublist (c.setDoc k new).docs := hs
+  have hi : c'.indexes = c.indexes := (show c'.indexes = (c.setDoc k new).indexes from hm.1).trans
+    (setDoc_indexes c k new)
+  intro ix hix hu hd a b hab ga gb
+  rw [hi] at hix
+  by_cases hnew : a.2 = new ∨ b.2 = new
+  · exact checked_pair (hck ix (show ix ∈ (c.setDoc k new).indexes by
+      rw [setDoc_indexes]; exact hix)) hu hd hab ga gb hnew
+  · simp only [not_or] at hnew
+    exact hU ix hix hu hd a b (pair_before_setDoc (hab.trans hs') hnew.1 hnew.2) ga gb
+
 /-! ### insert -/
 
 theorem uniqS_bump {c : Coll} (h : UniqS c) (n : Nat) : UniqS { c with nextOid := n } := h
@@ -131,7 +147,7 @@ theorem uniqS_insertDoc {now : Int} {c c' : Coll} {d id : Val} (hU : UniqS c)
           · rename_i c3 h3
             simp only [pure, Except.pure, Except.ok.injEq, Prod.mk.injEq] at h
             rw [← h.1]
-            exact uniqS_checked_write hU1 h3
+            exact uniqS_checked_store hU1 h3
           · cases h
   | _ => simp [insertDoc] at h
 
@@ -141,14 +157,21 @@ theorem uniqS_expireOr {now : Int} {c0 : Coll} (h0 : UniqS c0) :
   | error e => exact h0
   | ok c1 => exact h0.sub (sub_expire h)
 
+theorem uniqS_markStored {c : Coll} (h : UniqS c) (b : Bool) : UniqS (c.markStored b) := by
+  cases b with
+  | false => exact h
+  | true => exact h
+
 theorem uniqS_insErrState {now : Int} {c : Coll} (d : Val) (hU : UniqS c) :
     UniqS (insErrState now c d) := by
+  unfold insErrState insertRejected
+  apply uniqS_markStored
   cases d with
   | doc fs =>
     by_cases hid : dhas "_id" fs = true
-    · simp only [insErrState, hid, if_true]
+    · simp only [hid, if_true]
       exact uniqS_expireOr hU
-    · simp only [insErrState, hid, if_false]
+    · simp only [hid, if_false]
       exact uniqS_expireOr (c0 := { c with nextOid := c.nextOid + 1 }) hU
   | _ => exact uniqS_expireOr hU
 
